@@ -44,8 +44,19 @@ class PathEntry:
 
     def as_term(self) -> T:
         if self.kind in ("branch", "assume", "cell"):
+            if self.outcome and self.strong is not None and ":__eq__:" in self.where:
+                # equality tests (Grid.__eq__, Cube.__eq__): the explored sub-path is "exactly equal";
+                # approximately-but-not-exactly equal objects are outside the claim
+                return self.strong
             return self.term if self.outcome else tm.not_(self.term)
         return tm.eq(self.term, tm.const(self.outcome))
+
+    def equalities(self):
+        """(a, b) pairs asserted equal by this entry (equality tests on their true side)."""
+        if self.kind == "branch" and self.outcome and self.strong is not None and ":__eq__:" in self.where:
+            conj = self.strong.args if self.strong.op == "and" else (self.strong,)
+            return [(c.args[0], c.args[1]) for c in conj if c.op in ("==", "iff")]
+        return []
 
     def flipped(self) -> T:
         """Condition of the other side of this branch (allclose -> exact equality)."""
